@@ -79,6 +79,8 @@ def ops_match(a, b, tol):
     eps = 0 if (tol is None or tol >= 0.5) else tol + 1e-3
 
     def peq(p, q, slack=0):
+        if eps == 0 and slack == 0:
+            return R.point_eq(p, q)
         return abs(p[0] - q[0]) <= eps + slack and abs(p[1] - q[1]) <= eps + slack
 
     if not peq(sa, sb) or len(segsa) != len(segsb):
@@ -209,7 +211,9 @@ def run_case(case, ctx):
     gs = t.getGlyphSet()
     gi = R.glyph_index(spec)
     rounding = tol is None or tol >= 0.5
-    rnd = (lambda p: (R.ot_round(p[0]), R.ot_round(p[1]))) if rounding else (lambda p: p)
+    def rounder(exact):
+        return (lambda p: R.round_point(p, exact)) if rounding else (lambda p: p)
+
     ordered = not skip   # inlining a skipped base turns it into own contours, which precede the remaining components
     if skip:
         ctx.label("skip-list")
@@ -230,24 +234,23 @@ def run_case(case, ctx):
             if csw != exp_w:
                 raise Violation("advance encoded in the CFF charstring differs from the rounded source width", glyph=name, got=csw, expected=exp_w)
         exp = []
-        for pts, rev in R.resolve(gi, name):
+        for pts, rev, exact in R.resolve_ex(gi, name):
             c = R.to_cubics(R.cycle(pts))
             if rev:
                 c = R.reverse_cycle(c)
-            exp.append((c, rev))
+            exp.append((R.map_cycle(c, rounder(exact)), rev))
         if opt == 0:
             if len(got) != len(exp):
                 raise Violation("number of contours differs", glyph=name, got=len(got), expected=len(exp))
             def pred(i, j):
-                ec, rev = exp[i]
+                ecr, rev = exp[i]
                 gc = got[j]
-                ecr = R.map_cycle(ec, rnd)
                 cands = R.rotations(ecr) if rev else [ecr]
                 return any(ops_match(R.strip_tail((gc[0], gc[1])), R.strip_tail(R.oplist(cd)), tol) for cd in cands)
 
             bad = match(len(exp), pred, ordered)
             if bad is not None:
-                raise Violation("outline differs from resolved+rounded source", glyph=name, contour=bad, reversed=exp[bad][1], got=got[bad] if ordered else got, expected=R.map_cycle(exp[bad][0], rnd), tol=tol)
+                raise Violation("outline differs from resolved+rounded source", glyph=name, contour=bad, reversed=exp[bad][1], got=got[bad] if ordered else got, expected=exp[bad][0], tol=tol)
             ctx.count("contours-compared-exact", len(got))
         else:
             if not rounding:
@@ -255,8 +258,10 @@ def run_case(case, ctx):
                 continue
             ng = [x for x in (R.n1((gc[0], gc[1])) for gc in got) if x]
             ne = []
-            for ec, rev in exp:
-                ecr = R.map_cycle(ec, rnd)
+            if any(isinstance(p, R.P) and not p.strict for ec, _ in exp for p in [ec[0]] + [q for _, pts in ec[1] for q in pts]):
+                ctx.label("n1-skipped(rounding boundary under inexact arithmetic)")
+                continue
+            for ecr, rev in exp:
                 x = R.n1((ecr[0], ecr[1]))
                 if x:
                     ne.append(x)
